@@ -219,7 +219,8 @@ fn gen_scenario(seed: u64) -> (Scenario, Strategy) {
     };
     let undo_permille = *r.pick(&[0u64, 0, 150, 300]);
     let multi_change = r.chance(1, 3);
-    let docs: Vec<String> = ["main.incn", "other.incn", "side.incn"][..ndocs].iter().map(|s| s.to_string()).collect();
+    // the third document has the same file name as the first, in another directory (state must be keyed by the whole URI)
+    let docs: Vec<String> = ["main.incn", "other.incn", "pkg/main.incn"][..ndocs].iter().map(|s| s.to_string()).collect();
     let main_imports_other = ndocs >= 2 && r.chance(1, 2);
     let mut files: Vec<(String, String)> = Vec::new();
     for i in 0..4 {
@@ -229,6 +230,12 @@ fn gen_scenario(seed: u64) -> (Scenario, Strategy) {
     files[3].1 = "from dep2 import d2\npub def d3() -> int:\n    return d2()\n".to_string();
     if ndocs >= 2 {
         files.push(("other.incn".into(), "pub def o_fn() -> int:\n    return 0\n".into()));
+    }
+    if ndocs >= 3 {
+        for i in 0..3 {
+            files.push((format!("pkg/dep{i}.incn"), format!("pub def d{i}() -> int:\n    return {}\n", 10 + i)));
+        }
+        files.push(("pkg/dep3.incn".into(), "from dep2 import d2\npub def d3() -> int:\n    return d2()\n".into()));
     }
     // per-document histories
     let mut per_doc: Vec<Vec<Ev>> = Vec::new();
@@ -1124,7 +1131,7 @@ fn minimise(mut scn: Scenario, mut decs: Vec<Dec>, class: &str, dir: &Path, budg
         let before = scn.files.len();
         let mut c = scn.clone();
         c.files.retain(|(p, _)| {
-            let stem = p.trim_end_matches(".incn");
+            let stem = p.trim_end_matches(".incn").rsplit('/').next().unwrap_or("");
             used.contains(&format!("from {stem} ")) || (stem == "dep2" && used.contains("from dep3 "))
         });
         if c.files.len() < before && try_candidate(&c, &decs, budget) {
